@@ -111,6 +111,25 @@ theorem stepWorld_ok {k : Key2} {m : Int} (hm : 0 ≤ m) {s : Sim} (hI : SInv k 
     · split
       · exact fr _ (by rfl) (by rfl) (by rfl)
       · exact ⟨⟨hW, p, hX⟩, Past.refl k _⟩
+  | userDelete k' =>
+    simp only [stepWorld]
+    split
+    · exact ⟨⟨hW, p, hX⟩, Past.refl k _⟩
+    · split
+      · exact ⟨⟨hW, p, hX⟩, Past.refl k _⟩
+      · split
+        · refine (fun (x : WInv k m _ ∧ Past k s.cur _) => ⟨⟨x.1, sameX _ (by rfl)⟩, x.2⟩) (frame_trials hW (by rfl) (by rfl) ?_ ?_)
+          · unfold updTrial
+            simp only []
+            rw [map_key_upd]
+            · exact hW.tkeys
+            · intro _; rfl
+          · intro t' ht'
+            exact mem_upd ht' (fun _ => ⟨rfl, rfl⟩)
+        · refine (fun (x : WInv k m _ ∧ Past k s.cur _) => ⟨⟨x.1, sameX _ (by rfl)⟩, x.2⟩) (frame_trials hW (by rfl) (by rfl) ?_ ?_)
+          · exact (List.Sublist.map _ List.filter_sublist).nodup hW.tkeys
+          · intro t' ht'
+            exact ⟨t', (List.mem_filter.1 ht').1, rfl, rfl⟩
   | noop => exact ⟨⟨hW, p, hX⟩, Past.refl k _⟩
 
 theorem step_inv {k : Key2} {m : Int} (hm : 0 ≤ m) {s : Sim} (hI : SInv k m s) (op : Op) (hop : ∀ n, op ≠ .editMax k n) :
